@@ -46,9 +46,9 @@ def build(types, dt100, stop=1000, spawn=None, default_v=2):
                         if p["kind"] == "st":
                             self.state = p["x"]
                         elif p["kind"] == "w":      # the agent gives itself a numeric property it may not have had
-                            self.set_property("w", {"type": "Double", "value": p["x"] / 2.0})
+                            self.set_property("w", pval(p["x"]))
                         else:
-                            self.v = p["x"] / 2.0
+                            self.v = val(p["x"])
                     elif p["op"] == "PlanDel":
                         m.delete_agent(p["victim"])
                     elif p["op"] == "PlanNew":
@@ -78,7 +78,7 @@ def build(types, dt100, stop=1000, spawn=None, default_v=2):
                         if p["kind"] == "est":
                             ag.state = p["x"]
                         else:
-                            ag.v = p["x"] / 2.0
+                            ag.v = val(p["x"])
             self._stepidx += 1
 
     dc = RefCollector()
@@ -95,12 +95,34 @@ def build(types, dt100, stop=1000, spawn=None, default_v=2):
 
 NO_W = -999
 
+# Value embedding.  Abm.tla talks about abstract numbers (small integers, "halves"); the statistics are sums, minima, maxima
+# and a quotient, so any affine, order-preserving embedding x -> K*x + C of the abstract numbers into the implementation's
+# numbers commutes with them: total = K*total_spec + C*count, min/max = K*m + C.  EMB None: Double x/2 (K = 1/2, C = 0).
+# EMB (K, C) with integers: an Integer property K*x + C - used with K = 2**53 so that the totals only stay equal to the
+# population's sum if they are accumulated exactly (TLC's 32-bit integers never see the large numbers).
+EMB = [None]
+
+
+def val(x):
+    return x / 2.0 if EMB[0] is None else EMB[0][0] * x + EMB[0][1]
+
+
+def pval(x):
+    return {"type": "Double" if EMB[0] is None else "Integer", "value": val(x)}
+
+
+def agg(k, x, count):
+    """embedding of the specification's aggregate k ('total' / 'min' / 'max') over `count` agents"""
+    if EMB[0] is None:
+        return float(x)
+    return EMB[0][0] * x + EMB[0][1] * (count if k == "total" else 1)
+
 
 def prop_v(v, w=None):
     """properties of a reference agent: v always, the second numeric property w only if given (values in halves)"""
-    d = {"v": {"type": "Double", "value": v / 2.0}}
+    d = {"v": pval(v)}
     if w is not None and w != NO_W:
-        d["w"] = {"type": "Double", "value": w / 2.0}
+        d["w"] = pval(w)
     return d
 
 
@@ -155,8 +177,10 @@ def stats_at(m, t, types):
                 if v is None:
                     out[ty][s] = {"count": cell["count"], "total": None, "min": None, "max": None, "mean": None}
                 else:
-                    out[ty][s] = {"count": cell["count"], "total": v["total"] * 2, "min": v["min"] * 2,
-                                  "max": v["max"] * 2, "mean": v["mean"] * 2}
+                    f = 2 if EMB[0] is None else 1          # (embedded values are compared as they are, see agg())
+                    out[ty][s] = {"count": cell["count"], "total": v["total"] * f, "min": v["min"] * f,
+                                  "max": v["max"] * f, "mean": v["mean"] * f}
                 w = cell.get("w")
-                out[ty][s]["w"] = None if w is None else {"total": w["total"] * 2, "min": w["min"] * 2, "max": w["max"] * 2, "mean": w["mean"] * 2}
+                f = 2 if EMB[0] is None else 1
+                out[ty][s]["w"] = None if w is None else {"total": w["total"] * f, "min": w["min"] * f, "max": w["max"] * f, "mean": w["mean"] * f}
     return out
